@@ -41,20 +41,27 @@ JudgeDur(e) ==
   [why |-> Clause(wrong = {}, "C14:duration") \o Clause(Len(e.outs) = Len(e.es), "C14:arity"),
    tag |-> IF \E k \in 1..Len(e.es) : e.es[k] < e.s THEN "dur-wrap" ELSE "dur"]
 
+\* instants after 2038-01-19 do not fit TLC's integers: such events count seconds from a base instant that is a whole number
+\* of weeks after the epoch (weekday, day boundaries and offsets are unaffected), given as two 16-bit limbs <<high, low>>
+BaseOf(e) == IF "base" \in DOMAIN e THEN e.base ELSE <<0, 0>>
+RelFits(b4, base) == LET d == (b4[4] * 256 + b4[3]) - base[1] IN d >= -32767 /\ d <= 32766
+Rel(b4, base) == ((b4[4] * 256 + b4[3]) - base[1]) * 65536 + ((b4[2] * 256 + b4[1]) - base[2])
+
 JudgeClock(e) ==
   IF StrictClock(e.text)
   THEN LET C == ClockCandidates(e.zone, e.now, ClockHH(e.text), ClockMM(e.text)) IN
        IF C = {} THEN [why |-> <<>>, tag |-> "clock-gap-open"]
        ELSE [why |-> Clause(~e.raised, "C11:valid-clock-rejected")
                      \o (IF e.raised THEN <<>> ELSE
-                           Clause(Len(e.out) = 4 /\ IsByteSeq(e.out) /\ Fits31(e.out) /\ Nat31(e.out) \in C, "C11:encoded-instant")
+                           Clause(Len(e.out) = 4 /\ IsByteSeq(e.out) /\ RelFits(e.out, BaseOf(e)) /\ Rel(e.out, BaseOf(e)) \in C, "C11:encoded-instant")
                         \o Clause(e.back = e.text, "C11:round-trip")),
-             tag |-> IF Cardinality(C) = 2 THEN "clock-repeated-hour" ELSE IF Len(e.zone) > 1 THEN "clock-dst-day" ELSE "clock"]
+             tag |-> (IF Cardinality(C) = 2 THEN "clock-repeated-hour" ELSE IF Len(e.zone) > 1 THEN "clock-dst-day" ELSE "clock")
+                    \o (IF BaseOf(e) # <<0, 0>> THEN "-after-2038" ELSE "")]
   ELSE IF LenientClock(e.text) THEN [why |-> <<>>, tag |-> "clock-lenient-open"]
   ELSE [why |-> Clause(e.raised, "C11:malformed-clock-must-raise"), tag |-> "clock-malformed"]
 
 JudgeUnclock(e) ==
-  LET hm == HM(e.zone, Nat31(e.t4)) IN
+  LET hm == HM(e.zone, Rel(e.t4, BaseOf(e))) IN
   [why |-> Clause(~e.raised, "C11:decode-raised")
            \o (IF e.raised THEN <<>> ELSE Clause(e.out = TwoDigits(hm[1]) \o <<Colon>> \o TwoDigits(hm[2]), "C11:decoded-clock")),
    tag |-> IF Len(e.zone) > 1 THEN "unclock-dst-day" ELSE "unclock"]
